@@ -53,7 +53,7 @@ def gen_case(ctx, stream, idx):
         ir = irgen.rand_ir(r, nparams=idx, type_kinds=("int", "str"), with_return=False)
         ir["doc"] = ""
         return ir
-    doc_kinds = ("plain", "plain", "stop", "none", "multiline")
+    doc_kinds = ("plain", "plain", "stop", "none", "multiline", "punct")
     ir = irgen.rand_ir(r, nparams=r.randint(0, 8), max_params=8, type_kinds=T_KINDS, default_kinds=D_KINDS,
                        suffix_defaults=False, doc_kinds=doc_kinds)
     for p in ir["params"].values():
@@ -168,8 +168,9 @@ def post_json_schema(intermediate_repr, result, OLD):
         _dev(P, ir, "parse", "raises:" + type(e).__name__, "-", "-", repr(e)[:200], schema)
         return True
     exp = deepcopy(ir)
-    exp["returns"] = None  # the schema has no return entry; compared below through the description
-    got = {"params": deepcopy(back["params"]), "returns": None}
+    # the return entry travels inside the schema's description (":return: ... / :rtype: ...") and comes back from there
+    got = {"params": deepcopy(back["params"]), "returns": deepcopy(back.get("returns"))}
+    P.monitor("roundtrip.returns.compared" if (ir.get("returns") or {}).get("return_type") else "roundtrip.no-returns")
     for d_ in (exp, got):
         for p in d_["params"].values():
             if p.get("default") == irgen.NONE_STR and (p.get("typ") or "").startswith("Optional["):
@@ -178,7 +179,7 @@ def post_json_schema(intermediate_repr, result, OLD):
             if m is not None:
                 pre = "Optional[" if p["typ"].startswith("Optional[") else ""
                 p["typ"] = "%sLiteral[%s]%s" % (pre, ", ".join(map(repr, sorted(m))), "]" if pre else "")
-    for d in cmp_ir(exp, got, returns=False):
+    for d in cmp_ir(exp, got, returns=True):
         generic = "json_schema.roundtrip.%s.%s.%s" % (d["where"], d["field"], d["how"])
         P.deviation(generic + "|t=%s,d=%s" % (d["tkind"], d["dkind"]),
                     "round trip: %s %s %s: expected %r got %r" % (d["where"], d["field"], d["how"], d.get("exp"),
